@@ -7,8 +7,8 @@ from props.c07 import formula
 
 ID = "C08"
 PROOF_FILE = "Properties/C08.v"
-THEOREMS = ["C08_single_substitution", "C08_single_insertion", "C08_single_deletion"]
-CONE = ["Proofs/Repair8Proofs.v", "Proofs/RepairProofs.v", "Proofs/GeneratedProofs.v", "Proofs/GenerateProofs.v",
+THEOREMS = ["C08_single_substitution", "C08_single_insertion", "C08_single_deletion", "C08_multi"]
+CONE = ["Proofs/Repair8MultiProofs.v", "Proofs/Repair8Proofs.v", "Proofs/RepairProofs.v", "Proofs/GeneratedProofs.v", "Proofs/GenerateProofs.v",
         "Proofs/WalkProofs.v", "Proofs/VTProofs.v", "Proofs/KmerProofs.v", "Repair.v", "Coder.v", "Graph.v",
         "RepairSpec.v", "GraphSpec.v", "Spec.v", "Py.v"]
 MODEL_FUNCTIONS = ["repair_dna", "path_matching", "set_vt", "dna_to_number"]
@@ -24,8 +24,6 @@ TRUSTED_BASE = [
     "Print Assumptions of every C08 theorem: Closed under the global context",
     "extraction (ExtrOcamlBasic only) + coq/extract/driver.ml + OCaml 4.13.1",
     "correspondence harness harness/core.py, harness/props/c08.py, harness/repair_common.py, harness/gen.py",
-    "the multi-edit clause (2..4 separated edits) is decided by correspondence + oracle on sampled edit sets, not by a theorem "
-    "(the theorems cover every single edit)",
     "modelled, not verified: Python slice clamping, NumPy negative-row wrap, set / itertools.product",
 ]
 ASSUMPTIONS = ["graph is legal and vertex-induced (what graph generation returns), k >= 1",
@@ -66,6 +64,32 @@ def payloads(rng, tier):
                                      "indel": rng.random() < 0.7}
                 yield "single", {"k": k, "rows": rows, "v0": v0, "w": w, "edits": [["I", p, c]], "vt": use_vt, "indel": True}
             yield "single", {"k": k, "rows": rows, "v0": v0, "w": w, "edits": [["D", p, w[p]]], "vt": use_vt, "indel": True}
+    # repetitive walks on small sparse graphs, with the same edit applied at two places whose surrounding 2k-1 windows
+    # coincide while the symbol before the window differs
+    twins = {"quick": 250, "thorough": 5000, "search": 100}[tier]
+    for _ in range(twins):
+        import numpy as np
+        k = rng.choice([2, 2, 2, 3])
+        mask = gen.random_mask(rng, k, rng.choice([0.35, 0.5, 0.65]))
+        try:
+            v, acc = dsw.connect_coding_graph(observed_length=k, vertices=np.array(mask, dtype=int), threshold=rng.choice([1, 1, 2]))
+        except ValueError:
+            continue
+        rows = acc.tolist()
+        v0 = rng.choice(gen.live_vertices(rows))
+        n = rng.randint(8 * k + 6, 16 * k + 10)
+        w = gen.random_walk(rng, rows, v0, n)
+        if len(w) != n:
+            continue
+        pairs = [(a, b) for a in range(k, n - 2 * k) for b in range(a + 3 * k + 2, n - 2 * k)
+                 if w[a - k + 1: a + k] == w[b - k + 1: b + k] and w[a - k] != w[b - k]]
+        if not pairs:
+            continue
+        a, b = rng.choice(pairs)
+        kind = rng.choice("SID")
+        c = rng.choice([x for x in NUC if x != w[a]]) if kind == "S" else rng.choice(NUC)
+        yield "multi", {"k": k, "rows": rows, "v0": v0, "w": w, "edits": [[kind, a, c], [kind, b, c]], "vt": rng.random() < 0.3,
+                        "indel": True}
     for _ in range(multi):
         k, rows, v0 = fresh()
         m = rng.randint(2, 4)
